@@ -34,18 +34,18 @@ package log
 //@ pure SlotPos(s *segment, p int) bool = base(s.file.Data) + len(s.file.Data) - 8*(s.n+1) - 8 <= p && p <= base(s.file.Data) + len(s.file.Data) - 16 && (base(s.file.Data) + len(s.file.Data) - p) % 8 == 0
 //@ pure SegInv(s *segment) bool = SegBase(s) && 0 <= s.n && 8*(s.n+2) <= len(s.file.Data) && soff(s, 1) == 0 && s.size == soff(s, s.n+1) && s.size <= len(s.file.Data) - 8*(s.n+2) && forall(p, q, SlotPos(s, p) && SlotPos(s, q) && q <= p ==> wordat(s.file.Data, p) <= wordat(s.file.Data, q))
 
-//@ func (*segment).at
+//@ func (*segment).at params(s, i)
 //@   props C02 C03 C04 C13 C14
 //@   requires SegBase(s) && 0 <= i && i <= 137438953472
 //@   ensures [C13.at] result0 == len(s.file.Data) - i*8 - 8
 
-//@ func (*segment).offset
+//@ func (*segment).offset params(s, i)
 //@   props C02 C03 C04 C13 C14
 //@   requires SegBase(s) && 0 <= i && 8*i + 8 <= len(s.file.Data)
 //@   requires [C13.offset-fits-int] soff(s, i) < 9223372036854775808
 //@   ensures [C13.offset] result0 == soff(s, i)
 
-//@ func (*segment).setOffset
+//@ func (*segment).setOffset params(s, off, i)
 //@   props C02 C03 C04 C13 C14
 //@   requires SegBase(s) && 0 <= i && 8*i + 8 <= len(s.file.Data) && off >= 0
 //@   modifies contents(s.file.Data)
@@ -53,17 +53,17 @@ package log
 //@   ensures [C13.set-offset-frame] forall(p, p < base(s.file.Data) + len(s.file.Data) - 8*i - 8 || p >= base(s.file.Data) + len(s.file.Data) - 8*i ==> raw(s.file.Data, p) == old(raw(s.file.Data, p)))
 //@   ensures [C13.set-offset-words] forall(p, p + 8 <= base(s.file.Data) + len(s.file.Data) - 8*i - 8 || p >= base(s.file.Data) + len(s.file.Data) - 8*i ==> wordat(s.file.Data, p) == old(wordat(s.file.Data, p)))
 
-//@ func (*segment).lastIndex
+//@ func (*segment).lastIndex params(s)
 //@   props C02 C03 C04 C13 C14
 //@   requires s.n >= 0
 //@   ensures [C13.last-index] s.prevIndex + s.n < 18446744073709551616 ==> result0 == s.prevIndex + s.n
 
-//@ func (*segment).available
+//@ func (*segment).available params(s)
 //@   props C02 C03 C04 C13 C14
 //@   requires SegInv(s)
 //@   ensures [C13.available] result0 == len(s.file.Data) - 8*(s.n+2) - 8 - s.size
 
-//@ func (*segment).dirty
+//@ func (*segment).dirty params(s)
 //@   props C06 C10 C13 C14
 //@   ensures [C14.dirty] result0 == (s.synced < s.n)
 
@@ -88,7 +88,7 @@ package log
 //@ pure SyncedOK(s *segment) bool = s.synced <= s.n && (s.synced == s.n ==> hdrMem(s) == s.n && hdrDur(s) == s.n)
 //@ pure CrashOK(s *segment) bool = CrashOK0(s) && hdrDur(s) <= s.n && SyncedOK(s)
 
-//@ func (*mmap.File).Sync
+//@ func (*mmap.File).Sync params(f)
 //@   trusted
 //@   modifies f.gdur
 //@   ensures result0 == nil ==> forall(p, base(f.Data) <= p && p < base(f.Data) + len(f.Data) ==> f.gdur[p] == raw(f.Data, p))
@@ -96,7 +96,7 @@ package log
 //@   ensures result0 != nil ==> forall(p, f.gdur[p] == old(f.gdur[p]) || f.gdur[p] == raw(f.Data, p))
 //@   ensures result0 != nil ==> gword(f.gdur, base(f.Data) + len(f.Data) - 8) == old(gword(f.gdur, base(f.Data) + len(f.Data) - 8)) || gword(f.gdur, base(f.Data) + len(f.Data) - 8) == wordat(f.Data, base(f.Data) + len(f.Data) - 8)
 
-//@ func (*segment).append
+//@ func (*segment).append params(s, b)
 //@   props C02 C03 C04 C06 C10 C13 C14
 //@   requires SegInv(s) && CrashOK(s)
 //@   requires [C13.append-fits] s.size + len(b) <= len(s.file.Data) - 8*(s.n+2) - 8
@@ -108,13 +108,13 @@ package log
 //@   ensures [C14.append-crash-ok] CrashOK(s)
 //@   crash_inv [C14.append-crash-ok] CrashOK(s)
 
-//@ func (*segment).get
+//@ func (*segment).get params(s, i, n)
 //@   props C02 C03 C04 C13 C14
 //@   requires SegInv(s)
 //@   requires [C13.get-range] s.prevIndex < i && i - s.prevIndex + n <= s.n + 1 && n <= 1099511627776
 //@   ensures [C13.get] arrof(result0) == arrof(s.file.Data) && base(result0) == base(s.file.Data) + soff(s, i - s.prevIndex) && len(result0) == soff(s, i - s.prevIndex + n) - soff(s, i - s.prevIndex)
 
-//@ func (*segment).sync
+//@ func (*segment).sync params(s)
 //@   props C06 C10 C13 C14
 //@   requires SegInv(s) && CrashOK0(s) && SyncedOK(s)
 //@   modifies s.synced, contents(s.file.Data), s.file.gdur
@@ -125,7 +125,7 @@ package log
 //@   ensures [C13.sync-frame] forall(p, p < hdrPos(s) || p >= hdrPos(s) + 8 ==> raw(s.file.Data, p) == old(raw(s.file.Data, p)))
 //@   crash_inv [C14.sync-crash-ok] CrashOK0(s) && (old(CrashOK(s)) ==> hdrDur(s) <= s.n)
 
-//@ func (*segment).removeGTE
+//@ func (*segment).removeGTE params(s, i)
 //@   props C02 C03 C04 C06 C10 C13 C14
 //@   requires SegInv(s) && CrashOK(s)
 // (nothing is truncated when i lies beyond the last entry: then the call only syncs)
@@ -166,19 +166,19 @@ package log
 // the list position and the content bounds of a segment are as at function entry
 //@ pure SegKept(x *segment) bool = x.n == old(x.n) && x.prevIndex == old(x.prevIndex) && x.size == old(x.size) && x.prev == old(x.prev) && x.next == old(x.next) && x.file == old(x.file)
 
-//@ func (*Log).PrevIndex
+//@ func (*Log).PrevIndex params(l)
 //@   props C02 C03 C04 C13 C14
 //@   requires l.index == nil ==> l.first != nil
 //@   requires l.index != nil ==> len(l.index) == 2
 //@   ensures [C13.prev-index] result0 == LogPrev(l)
 
-//@ func (*Log).LastIndex
+//@ func (*Log).LastIndex params(l)
 //@   props C02 C03 C04 C13 C14
 //@   requires l.index == nil ==> l.last != nil && l.last.n >= 0 && l.last.prevIndex + l.last.n < 18446744073709551616
 //@   requires l.index != nil ==> len(l.index) == 2
 //@   ensures [C13.last-index] result0 == LogLast(l)
 
-//@ func (*Log).segment
+//@ func (*Log).segment params(l, i)
 //@   props C02 C03 C04 C13 C14
 //@   requires LogShape(l) && l.index == nil
 //@   requires [C13.segment-range] i <= LogLast(l)
@@ -186,24 +186,24 @@ package log
 //@   ensures [C13.segment-holds] result0 != nil ==> InList(l, result0) && SegGood(result0) && result0.prevIndex < i && i <= result0.prevIndex + result0.n
 //@   loop 1 invariant s != nil && InList(l, s) && SegGood(s) && i <= s.prevIndex + s.n
 
-//@ func (*Log).Contains
+//@ func (*Log).Contains params(l, i)
 //@   props C02 C03 C04 C13 C14
 //@   requires LogShape(l) && l.index == nil
 //@   ensures [C13.contains] result0 == (i > LogPrev(l) && i <= LogLast(l))
 
-//@ func (*Log).Count
+//@ func (*Log).Count params(l)
 //@   props C02 C03 C04 C13 C14
 //@   requires LogShape(l) && l.index == nil
 //@   ensures [C13.count] LogLast(l) >= LogPrev(l) ==> result0 == LogLast(l) - LogPrev(l)
 
-//@ func (*Log).Get
+//@ func (*Log).Get params(l, i)
 //@   props C02 C03 C04 C13 C14
 //@   requires LogShape(l) && l.index == nil
 //@   requires [C13.get-range] i <= LogLast(l)
 //@   ensures [C13.get-notfound] (result1 != nil) == (i <= LogPrev(l)) && (result1 != nil ==> result1 == ErrNotFound)
 //@   ensures [C13.get-entry] result1 == nil ==> exists(x, l.gin[x] && SegHolds(x, i, result0))
 
-//@ func (*Log).ViewAt
+//@ func (*Log).ViewAt params(l, prevIndex, lastIndex)
 //@   props C02 C03 C04 C13 C14
 //@   requires LogShape(l) && l.index == nil
 //@   requires [C03.view-bounds] lastIndex <= LogLast(l)
@@ -211,7 +211,7 @@ package log
 //@   ensures [C13.view] result0 != nil ==> isfresh(result0) && result0.index != nil && len(result0.index) == 2 && LogPrev(result0) == prevIndex && LogLast(result0) == lastIndex && InList(l, result0.first) && result0.first.prevIndex <= prevIndex
 //@   loop 1 invariant s != nil && InList(l, s)
 
-//@ func (*Log).CommitN
+//@ func (*Log).CommitN params(l, n)
 //@   props C06 C10 C13 C14
 //@   requires LogShape(l)
 //@   modifies segment.synced, elems(uint8), mmap.File.gdur
